@@ -20,6 +20,7 @@ import z3
 
 F64 = z3.Float64()
 RNE = z3.RNE()
+EPS = z3.RealVal("1/1000000")   # witnesses are preferably taken this far inside every rounding cell (float replay robustness)
 
 
 # --------------------------------------------------------------------------------------------------
@@ -95,6 +96,7 @@ class Engine:
         self.choices = []      # [(name, index)] structural choices in order
         self.ctx = {}
         self.memo = {}
+        self.margins = []
         self._signal = None
         self._model = None
         self._path_obl = 0
@@ -378,35 +380,61 @@ class Engine:
         return False
 
     def _record_violation(self, label, info, extra):
+        if self.interior_status(extra) == "boundary-only":
+            # exists only within 1e-6 of a rounding boundary of exact arithmetic: float rounding is outside a Real-mode claim
+            self.stats["violated"] -= 1
+            self.stats["boundary_only"] = self.stats.get("boundary_only", 0) + 1
+            return
         n = self.label_counts.get(label, 0)
         self.label_counts[label] = n + 1
         if n < 2 and len(self.violations) < 30:   # at most two witnesses per distinct claim
             self.violations.append(dict(label=label, info=info, witness=self.witness(extra)))
 
+    def interior_status(self, extra):
+        """'interior' if the refutation has a model at least EPS inside every rounding cell of this path, 'boundary-only' if it
+        provably has none (it exists only within EPS of a rounding boundary of exact real arithmetic), 'n/a' otherwise"""
+        if self.mode != "real" or not self.margins:
+            return "n/a"
+        self.solver.push()
+        try:
+            self.solver.add(*extra)
+            self.solver.add(*self.margins)
+            r = self.check()
+            return {"sat": "interior", "unsat": "boundary-only"}.get(r, "n/a")
+        finally:
+            self.solver.pop()
+
     def witness(self, extra):
-        """Concrete values for all registered inputs (prefers 'nice' dyadic values for exact float replay)."""
+        """Concrete values for all registered inputs (prefers interior, 'nice' dyadic values for exact float replay)."""
         self.solver.push()
         try:
             for e in extra:
                 self.solver.add(e)
             model = None
             if self.mode == "real":
-                nice = []
-                for name, (kind, t) in self.inputs.items():
-                    if kind == "real":
-                        k = z3.Int(f"nice!{name}")
-                        nice.append(t * 4 == z3.ToReal(k))
-                if nice:
-                    self.solver.push()
-                    self.solver.set("timeout", 3000)
-                    self.solver.add(*nice)
-                    t0 = time.time()
-                    r = _s(self.solver.check())
-                    self.stats["solver_s"] += time.time() - t0
-                    if r == "sat":
-                        model = self.solver.model()
-                    self.solver.pop()
-                    self.solver.set("timeout", self.timeout_ms)
+                reals = [(name, t) for name, (kind, t) in self.inputs.items() if kind == "real"]
+                if reals:
+                    for use_margin in ((True, False) if self.margins else (False,)):
+                        for den in (4, 64, 1000, 2 ** 20, None):   # prefer values that are exact (or well separated) as floats
+                            if den is None and not use_margin:
+                                continue
+                            self.solver.push()
+                            self.solver.set("timeout", 3000)
+                            if den is not None:
+                                self.solver.add(*[t * den == z3.ToReal(z3.Int(f"nice!{den}!{name}")) for name, t in reals])
+                            if use_margin:
+                                self.solver.add(*self.margins)
+                            t0 = time.time()
+                            r = _s(self.solver.check())
+                            self.stats["solver_s"] += time.time() - t0
+                            if r == "sat":
+                                model = self.solver.model()
+                            self.solver.pop()
+                            self.solver.set("timeout", self.timeout_ms)
+                            if model is not None:
+                                break
+                        if model is not None:
+                            break
             if model is None:
                 r = _s(self.solver.check())
                 if r != "sat":
@@ -859,8 +887,10 @@ class SFloat:
         nr = z3.ToReal(n)
         if kind == "ceil":
             eng.add(z3.And(nr - 1 < self.t, self.t <= nr))
+            eng.margins.append(z3.And(nr - 1 + EPS <= self.t, self.t <= nr - EPS))
         elif kind == "floor":
             eng.add(z3.And(nr <= self.t, self.t < nr + 1))
+            eng.margins.append(z3.And(nr + EPS <= self.t, self.t <= nr + 1 - EPS))
         eng.memo[key] = (n, st)
         self._mono(kind, n, self.t)
         return n
@@ -936,6 +966,7 @@ class SFloat:
                     eng.add(z3.Or(a <= (lo - 1) * b, a > hi * b))
                     eng._raise(PathAbort("ceil(quotient) outside the int bound"))
                 eng.add(z3.And((d - 1) * b < a, a <= d * b))
+                eng.margins.append(z3.And((d - 1) * b + EPS * b <= a, a <= d * b - EPS * b))
                 return d
         return SInt(eng, self._fresh_int("ceil", True))
 
@@ -974,6 +1005,7 @@ class SFloat:
                     eng.add(z3.Or(a < lo * b, a >= (hi + 1) * b))
                     eng._raise(PathAbort("floor(quotient) outside the int bound"))
                 eng.add(z3.And(d * b <= a, a < (d + 1) * b))
+                eng.margins.append(z3.And(d * b + EPS * b <= a, a <= (d + 1) * b - EPS * b))
                 return d
         return SInt(eng, self._fresh_int("floor", False))
 
@@ -997,6 +1029,7 @@ class SFloat:
             # nearest integer; at an exact tie either neighbour is allowed (sound over-approximation of
             # round-half-even that keeps `mod` out of the path condition; no oracle depends on the tie direction)
             eng.add(z3.And(rr - half <= st, st <= rr + half))
+            eng.margins.append(z3.And(rr - half + EPS <= st, st <= rr + half - EPS))
             self._mono("round%d" % decimals, r, st)
             eng.memo[key] = (r, st)
         out = SFloat(eng, z3.ToReal(r) / scale, self.np)
